@@ -136,6 +136,10 @@ def compute(facts, crates=None):
                 fld = _field_of(t.dest)
                 if fld is not None and fld in ftype:
                     bad.add(fld)
+    from .fieldinv import ctor_fn_uses
+    for adt in ctor_fn_uses(facts, crates, set(forder)):
+        for name in forder[adt]:
+            bad.add((adt, name))
     # a counter that copies from a non-counter is not a counter
     changed = True
     while changed:
